@@ -242,6 +242,33 @@ fn judge(c: &DCase, g: &Grouped, target: &std::path::PathBuf) -> Verdict {
             }
         }
     }
+    // --dry-run -o FILE over an older, longer script: the file must hold the new script only
+    if !scripts[0].stdout.is_empty() {
+        let of = g.cd.out().join("plan.sh");
+        let mut old = scripts[0].stdout.clone();
+        for i in 0..12 {
+            old.extend_from_slice(format!("rm /stale/entry/of/an/older/script/{}\n", i).as_bytes());
+        }
+        let _ = std::fs::write(&of, &old);
+        let mut a2 = dry_args.clone();
+        let pos = if c.op == Op::Move { a2.len() - 1 } else { a2.len() };
+        a2.insert(pos, of.clone().into_os_string());
+        a2.insert(pos, "-o".into());
+        let o = mk(&a2, "1").run();
+        if o.ok() {
+            let written = std::fs::read(&of).unwrap_or_default();
+            let same = match (parse_script(&written, &c.op), parse_script(&scripts[0].stdout, &c.op)) {
+                (Ok((_, a)), Ok((_, b))) => a == b,
+                _ => false,
+            };
+            if !same {
+                return fail(
+                    "script-file-differs-from-stdout-script",
+                    format!("{} over an existing, longer file\nfile:\n{}\nstdout script:\n{}", mk(&a2, "1").cmdline(), String::from_utf8_lossy(&written), String::from_utf8_lossy(&scripts[0].stdout)),
+                );
+            }
+        }
+    }
     let after_dry = Snapshot::take(&[&tree, target]);
     if !diff(&pristine, &after_dry, true).is_empty() {
         return fail("dry-run-modified-tree", diff(&pristine, &after_dry, true).describe());
@@ -398,7 +425,7 @@ pub fn check(tier: Tier) -> i32 {
     cleanup_process_scratch();
     ctx.finish(
         "exploration",
-        "proptest-generated dedupe scenarios as in C02 (shell-hostile names, hard links, symlinks with -S, roots, priorities, patterns, -n) x remove / link / link --soft / move; one report in five comes from `group --transform 'head -c 3'`, so that the members of a group differ in size. Per case: dry run with RAYON_NUM_THREADS 1, 2, 16 and with 8 threads under schedule perturbation by the interposer (scripts must be identical modulo the random temp suffix and must not touch the tree; a non-empty script sent to /dev/full, where every write fails, must not end with exit status 0); script parsed into (kind, file) operations which must follow report group order and equal, as a set and by kind, the changes of a real run on the same tree (inventory diff); 'Would process N files / reclaim X' must equal 'Processed N files / reclaimed X' and N the number of script operations; for remove/link/link --soft the tree is rebuilt identically and the script is executed by bash: resulting tree (paths, types, bytes, symlink targets, hard-link partition) must equal the real run's. Non-trivial = >=2 operations from >=2 groups and a path needing quoting.",
+        "proptest-generated dedupe scenarios as in C02 (shell-hostile names, hard links, symlinks with -S, roots, priorities, patterns, -n) x remove / link / link --soft / move; one report in five comes from `group --transform 'head -c 3'`, so that the members of a group differ in size. Per case: dry run with RAYON_NUM_THREADS 1, 2, 16 and with 8 threads under schedule perturbation by the interposer (scripts must be identical modulo the random temp suffix and must not touch the tree; a non-empty script sent to /dev/full, where every write fails, must not end with exit status 0; `--dry-run -o FILE` over an existing longer script must leave exactly the new script in FILE); script parsed into (kind, file) operations which must follow report group order and equal, as a set and by kind, the changes of a real run on the same tree (inventory diff); 'Would process N files / reclaim X' must equal 'Processed N files / reclaimed X' and N the number of script operations; for remove/link/link --soft the tree is rebuilt identically and the script is executed by bash: resulting tree (paths, types, bytes, symlink targets, hard-link partition) must equal the real run's. Non-trivial = >=2 operations from >=2 groups and a path needing quoting.",
         &["`dedupe` (reflink) is not compared: unsupported on the sandbox file systems, so a real run processes nothing", "access-time priorities are replaced because reading files between the runs changes atimes", "script lines are decoded with fclones' splitter (its agreement with bash is C17's claim); the bash execution is independent of it"],
     )
 }
